@@ -5,12 +5,15 @@ META = dict(
     technique='CBMC code contracts (DFCC) on the mechanically extracted random composition model: frame condition (only the engine state is assigned), ghost draw counter, distribution draw as contract stub with the [a,b) guarantee',
     level_text='Proof for all inputs within the list bound: the random composition model mutates nothing but the world\'s random number engine, draws '
                'exactly once when it applies and not at all otherwise (so answers are a function of file, seed and query history), and the drawn '
-               'value comes from the [min value, max value) pair configured for the requested composition.',
-    level_note='Trusted: translator, shims (std::uniform_real_distribution draw is a stub: advances the engine, result in [a,b)), CBMC. Seed wiring in the '
-               'World constructor / parse_entries (rapidjson-bound) is not under contract.',
-    scope='ContinentalPlateModels::Composition::Random::get_composition (the only random composition model in the code base)',
+               'value comes from the [min value, max value) pair configured for the requested composition. World::parse_entries reseeds '
+               'the engine with (entry + MPI rank) for every "random number seed" entry >= 0, zero included, exactly once, and leaves it as '
+               'constructed for a negative entry.',
+    level_note='Trusted: translator, shims (std::uniform_real_distribution draw is a stub: advances the engine, result in [a,b); mt19937::seed(s) sets the state to an '
+               'uninterpreted function of s), CBMC. Assumed, unchecked: entry + MPI rank does not overflow int (signed overflow for entry INT_MAX on rank >= 1). '
+               'Seeding in the World constructor from its argument is not under contract.',
+    scope='ContinentalPlateModels::Composition::Random::get_composition (the only random composition model in the code base); World::parse_entries (seed entry)',
     not_covered=['random uniform grain distributions: orthonormality and determinant of the rotation matrices, normalised sizes summing to one (floating-point products/quotients)',
-                 'engine seeding from the constructor argument / "random number seed"', '"different seeds give different draws" (a statement about mt19937)'],
+                 'engine seeding from the constructor argument', '"different seeds give different draws" (a statement about mt19937)'],
     enforced_elsewhere={},
 )
 UNITS = []
@@ -30,6 +33,31 @@ for fam, fdir in [('ContinentalPlate', 'continental_plate')]:
             contract='__CPROVER_assigns(i)\n'
                      '__CPROVER_loop_invariant(i <= this_->compositions.n && g_draws == 0 && (g_listed ==> i <= g_first))\n'
                      '__CPROVER_decreases(this_->compositions.n - i)')}))
+
+# World::parse_entries: seed wiring ("random number seed" -> engine), shared contract file with C03/C09
+WORLD_PARSE = dict(
+    name='world_parse_entries', enforce='World_parse_entries', contracts='c_world_parse.c', harness='h_world_parse',
+    targets=[dict(tu='source/world_builder/world.cc', qual='WorldBuilder::World::parse_entries', cname='World_parse_entries')],
+    stub_prefixes=['Parameters_'],
+    stub=['CoordinateSystems_Interface_parse_entries', 'GravityModel_Interface_parse_entries', 'Features_Interface_parse_entries',
+          'CoordinateSystems_Interface_natural_coordinate_system'],
+    replace=['Parameters_get__string__ret_double', 'Parameters_get__string__ret_bool', 'Parameters_get__string__ret_int',
+             'Parameters_get__string__ret_basic_string_char', 'Parameters_get_unique_pointer__ret_CoordinateSystems_Interface',
+             'Parameters_get_unique_pointer__ret_GravityModel_Interface', 'Parameters_get_unique_pointers__ret_Features_Interface',
+             'Parameters_check_entry', 'Parameters_get_vector__string__ret_Point_2', 'Parameters_enter_subsection', 'Parameters_leave_subsection',
+             'CoordinateSystems_Interface_parse_entries', 'GravityModel_Interface_parse_entries', 'Features_Interface_parse_entries',
+             'CoordinateSystems_Interface_natural_coordinate_system'],
+    loops={('World_parse_entries', 2): dict(
+        contract='__CPROVER_assigns(i, wb_thrown)\n'
+                 '__CPROVER_loop_invariant(i <= prm->features.n && !wb_thrown)\n'
+                 '__CPROVER_decreases(prm->features.n - i)')},
+    unwind_complete=3, outline_fp='all', defines={'WB_VEC_CAP': 2}, expect_fail=['REACHABILITY-GUARD'], timeout=900,
+    canaries=[(r'if \(\(local_seed >= 0\)\)', 'if ((local_seed > 0))', 'seed entry 0 ignored'),
+              (r'this_->specific_heat = wb_t27;', 'this_->specific_heat = wb_t25;', 'specific heat takes the value of the expansivity key'),
+              (r'this_->dim = \(\(unsigned int\)3\);', 'this_->dim = ((unsigned int)2);', 'dim 2 without cross section'),
+              (r'Point2_op_sub\(&this_->cross_section.data\[wb_idx\(\(\(unsigned long\)0\), this_->cross_section.n\)\], &this_->cross_section.data\[wb_idx\(\(\(unsigned long\)1\), this_->cross_section.n\)\]\)',
+               'Point2_op_sub(&this_->cross_section.data[wb_idx(((unsigned long)1), this_->cross_section.n)], &this_->cross_section.data[wb_idx(((unsigned long)0), this_->cross_section.n)])', 'cross-section direction reversed')])
+UNITS.append(WORLD_PARSE)
 
 
 def native_oracle(witness, work, search_seed=None):
@@ -55,11 +83,41 @@ def native_oracle(witness, work, search_seed=None):
             lo, hi = (0.0, 1.0) if c == 0 else (5.0, 6.0)
             if not (lo <= v < hi):
                 return dict(status='violated', detail='random composition %d is configured with bounds [%r, %r) but the library returned %r (compositions [0,1], min value [0,5], max value [1,6])' % (c, lo, hi, v))
-        return dict(status='holds', detail='60 draws within their bounds; two equal worlds agree')
     finally:
         q1.close()
         q2.close()
+    # the "random number seed" entry of the file decides the draws, whatever seed the constructor was given: every
+    # entry >= 0 (0 included) reseeds the engine, so worlds built with different constructor seeds agree
+    entries = [0, 1, 17]
+    if isinstance(witness.get('seed_entry'), int) and witness['seed_entry'] >= 0 and witness['seed_entry'] not in entries:
+        entries.insert(0, witness['seed_entry'])
+    for entry in entries:
+        d = json.loads(text)
+        d['random number seed'] = entry
+        t2 = json.dumps(d)
+        qa = oracle.Q(t2, work, seed=3, name='sa')
+        qb = oracle.Q(t2, work, seed=11, name='sb')
+        try:
+            if qa.construct_error:
+                return dict(status='error', detail=qa.construct_error)
+            for i in range(6):
+                line = 'c3 %r %r %r %r 0' % (1e5 + 1e4 * i, 2e5, 1000e3 - 1e4, 1e4)
+                a, b = qa.ask(line), qb.ask(line)
+                if a != b:
+                    return dict(status='violated', input={'random number seed': entry, 'constructor seeds': [3, 11], 'query': line},
+                                detail='"random number seed": %d in the file does not decide the draws: worlds constructed with seed 3 and seed 11 disagree at draw %d (%s vs %s)' % (entry, i, a[1], b[1]))
+        finally:
+            qa.close()
+            qb.close()
+    return dict(status='holds', detail='60 draws within their bounds; two equal worlds agree; file seed entries %s override the constructor seed' % entries)
 
 
 def witness_from_trace(unit, failure, seed):
-    return {}
+    w = {}
+    for k, v in (failure.get('trace') or {}).items():
+        if k == 'g_seed_entry':
+            try:
+                w['seed_entry'] = int(str(v).rstrip('ul'))
+            except ValueError:
+                pass
+    return w
